@@ -122,6 +122,7 @@ type Op struct {
 	A    int    `json:"a,omitempty"`
 	B    int    `json:"b,omitempty"`
 	C    int    `json:"c,omitempty"`
+	Rep  int    `json:"r,omitempty"` // repeat count (0 and 1 both mean once)
 	Tape []int  `json:"t,omitempty"`
 }
 
